@@ -47,7 +47,7 @@ def replay_obligation(ob):
             script = c.replay(ob)
         except Exception as e:
             return None, None, 'replay recipe failed: %r' % (e,)
-    elif getattr(ob, 'replay_script', None):
+    if not script and getattr(ob, 'replay_script', None):
         script = ob.replay_script
     if not script:
         return None, None, 'no replay recipe for this obligation'
